@@ -403,7 +403,7 @@ OkC05(m, o) ==
     \* instance the client's own packet reflected back) is never an outcome, whatever id it carries
     /\ \A i \in DOMAIN o.ev :
           (o.ev[i].k = "recvd") => /\ o.op = "recv" /\ o.arg.d.ok
-                                   /\ o.ev[i].cls = o.arg.d.cls
+                                   /\ o.ev[i].cls = o.arg.d.cls /\ o.ev[i].id = o.arg.d.id
                                    /\ o.ev[i].cls \in {"success", "error", "indication"}
     \* direct leak check through the snapshot hook: table and timer entries are exactly the
     \* pending requests, one timer entry each
